@@ -303,6 +303,7 @@ class Interp:
         self.crate = crate
         self.inline = inline            # predicate(path) -> bool ; None = inline every local fn
         self.uninterpreted = uninterpreted or (lambda p: False)
+        self.opaque = set()       # functions that stay uninterpreted even when they are not in the reference inventory
         self.loop_records = {}    # (head, instance) -> record of a stabilised loop (loopsum.py)
         self.iter_heads = {}      # position head variable -> iterator value on loop entry
         self.max_depth = max_depth
@@ -1940,7 +1941,7 @@ class Interp:
                 self.store(st, cell, path, args[0])
                 return self.goto(st, fr, target, out)
         local_fn = self.crate.fn(name) if c.get('local') else None
-        fresh_helper = local_fn is not None and name not in KNOWN_FNS   # extracted after the reference tree: see inline
+        fresh_helper = local_fn is not None and name not in KNOWN_FNS and name not in self.opaque   # extracted after the reference tree: see inline
         if local_fn is not None and (fresh_helper or not self.uninterpreted(name)):
             if (fresh_helper or self.inline is None or self.inline(name)):
                 depth = sum(1 for f in st.frames if f.fn.path == name)
